@@ -433,6 +433,7 @@ func main() {
 	}
 	signatures(c, w) // filtered per package name
 	transcripts(c, w)
+	merkleQueries(c, w)
 	if mon.Selected("small-fields") {
 		smallFields(c, w)
 		smallFields2(c, w)
